@@ -3,6 +3,7 @@
  * the low-level functions are printed raw (exact comparison with the Impl model); the container
  * interfaces print "ret" and, on success, the affine coordinates of the imported key. */
 #include "common.h"
+#include "entropy.h"
 #include <gmssl/sm2_z256.h>
 #include <gmssl/sm2.h>
 #include <gmssl/pem.h>
@@ -158,6 +159,103 @@ static void handle(size_t nw, char **w) {
 		printf("%d", r == 1 ? 1 : -1);
 	done:
 		free(k); free(d); free(x); free(y); free(C); free(xa); free(ya); free(out);
+	}
+	/* ---------- scalar generation with a scripted entropy source ---------- */
+	else if ((IS("randrange") || IS("keygen")) && nw == 4) {
+		/* w[1] = range (randrange) or "-" (keygen); w[2] = script bytes (32 per draw); w[3] = draw index that fails (-1 never) */
+		buf_t sc = exact(w[2]); long fail = atol(w[3]);
+		ent_script(sc.p, sc.n, fail);
+		if (IS("randrange")) {
+			uint64_t *range = Z(w[1]), *r = malloc(32); int ret;
+			memset(r, 0xA5, 32);
+			ret = sm2_z256_rand_range(r, range);
+			printf("%d ", ret); pz(r); free(range); free(r);
+		} else {
+			SM2_KEY *k = malloc(sizeof(SM2_KEY)); int ret;
+			memset(k, 0xA5, sizeof(*k));
+			ret = sm2_key_generate(k);
+			if (ret == 1) { printf("1 "); pz(k->private_key); putchar(' '); pp(&k->public_key); } else printf("-1");
+			free(k);
+		}
+		ent.passthrough = 1;
+		release(sc);
+	}
+	else if (IS("fromhash") && nw == 6) {
+		SM2_Z256_POINT *P = PT(w + 1); buf_t d = exact(w[4]); int r;
+		r = sm2_z256_point_from_hash(P, d.p, d.n, atoi(w[5]));
+		printf("%d ", r); pp(P); free(P); release(d);
+	}
+	else if (IS("keydigest") && nw == 4) {
+		SM2_KEY *k = malloc(sizeof(SM2_KEY)); SM2_Z256_POINT *P = PT(w + 1); uint8_t *dg = malloc(32); int r;
+		memset(k, 0, sizeof(*k));
+		if (sm2_key_set_public_key(k, P) != 1) { printf("ERR"); free(k); free(P); free(dg); return; }
+		r = sm2_public_key_digest(k, dg);
+		if (r == 1) { printf("1 "); puthex(dg, 32); } else printf("-1");
+		free(k); free(P); free(dg);
+	}
+	/* ---------- export then import: every encoder of sm2_key.c / sm2_z256.c against its decoder ---------- */
+	else if (IS("rt") && nw == 2) {
+		SM2_KEY *k = malloc(sizeof(SM2_KEY)), *k2 = malloc(sizeof(SM2_KEY)); uint64_t *d = Z(w[1]);
+		uint8_t *buf = malloc(1024), *p; const uint8_t *cp; size_t len; char *mem = NULL; size_t memlen = 0; FILE *f;
+		const uint8_t *attrs; size_t attrslen; int bad = 0;
+		if (sm2_key_set_private_key(k, d) != 1) { printf("-1"); goto rtdone; }
+#define SAMEPUB() (sm2_public_key_equ(k, k2) == 1)
+#define SAMEPRI() (memcmp(k->private_key, k2->private_key, 32) == 0)
+		p = buf; len = 0; memset(k2, 0xA5, sizeof(*k2));
+		if (sm2_public_key_to_der(k, &p, &len) != 1) bad |= 1; cp = buf;
+		if (sm2_public_key_from_der(k2, &cp, &len) != 1 || len || !SAMEPUB()) bad |= 1;
+		p = buf; len = 0; memset(k2, 0xA5, sizeof(*k2));
+		if (sm2_public_key_info_to_der(k, &p, &len) != 1) bad |= 2; cp = buf;
+		if (sm2_public_key_info_from_der(k2, &cp, &len) != 1 || len || !SAMEPUB()) bad |= 2;
+		p = buf; len = 0; memset(k2, 0xA5, sizeof(*k2));
+		if (sm2_private_key_to_der(k, &p, &len) != 1) bad |= 4; cp = buf;
+		if (sm2_private_key_from_der(k2, &cp, &len) != 1 || len || !SAMEPUB() || !SAMEPRI()) bad |= 4;
+		p = buf; len = 0; memset(k2, 0xA5, sizeof(*k2));
+		if (sm2_private_key_info_to_der(k, &p, &len) != 1) bad |= 8; cp = buf;
+		if (sm2_private_key_info_from_der(k2, &attrs, &attrslen, &cp, &len) != 1 || len || !SAMEPUB() || !SAMEPRI()) bad |= 8;
+		/* PEM */
+		f = open_memstream(&mem, &memlen); if (sm2_public_key_info_to_pem(k, f) != 1) bad |= 16; fclose(f);
+		f = fmemopen(mem, memlen ? memlen : 1, "r"); memset(k2, 0xA5, sizeof(*k2));
+		if (sm2_public_key_info_from_pem(k2, f) != 1 || !SAMEPUB()) bad |= 16; fclose(f); free(mem); mem = NULL;
+		f = open_memstream(&mem, &memlen); if (sm2_private_key_to_pem(k, f) != 1) bad |= 32; fclose(f);
+		f = fmemopen(mem, memlen ? memlen : 1, "r"); memset(k2, 0xA5, sizeof(*k2));
+		if (sm2_private_key_from_pem(k2, f) != 1 || !SAMEPUB() || !SAMEPRI()) bad |= 32; fclose(f); free(mem); mem = NULL;
+		f = open_memstream(&mem, &memlen); if (sm2_private_key_info_to_pem(k, f) != 1) bad |= 64; fclose(f);
+		f = fmemopen(mem, memlen ? memlen : 1, "r"); memset(k2, 0xA5, sizeof(*k2));
+		if (sm2_private_key_info_from_pem(k2, f) != 1 || !SAMEPUB() || !SAMEPRI()) bad |= 64; fclose(f); free(mem); mem = NULL;
+		/* ECPoint DER, octets (both forms), set_public_key */
+		p = buf; len = 0; memset(k2, 0xA5, sizeof(*k2));
+		if (sm2_z256_point_to_der(&k->public_key, &p, &len) != 1) bad |= 128; cp = buf;
+		if (sm2_z256_point_from_der(&k2->public_key, &cp, &len) != 1 || len || !SAMEPUB()) bad |= 128;
+		memset(k2, 0xA5, sizeof(*k2));
+		if (sm2_z256_point_to_uncompressed_octets(&k->public_key, buf) != 1 || sm2_z256_point_from_octets(&k2->public_key, buf, 65) != 1 || !SAMEPUB()) bad |= 256;
+		memset(k2, 0xA5, sizeof(*k2));
+		if (sm2_z256_point_to_compressed_octets(&k->public_key, buf) != 1 || sm2_z256_point_from_octets(&k2->public_key, buf, 33) != 1 || !SAMEPUB()) bad |= 512;
+		memset(k2, 0xA5, sizeof(*k2));
+		if (sm2_key_set_public_key(k2, &k->public_key) != 1 || !SAMEPUB() || !sm2_z256_is_zero(k2->private_key)) bad |= 1024;
+		if (bad) printf("ROUNDTRIP-FAILS %d", bad); else printf("1");
+	rtdone:
+		free(k); free(k2); free(d); free(buf);
+	}
+	/* ---------- text helpers: print / hex ---------- */
+	else if (IS("ptext") && nw == 6) {     /* X Y Z ind fmt : the three point/number printers */
+		SM2_Z256_POINT *P = PT(w + 1); int a = atoi(w[4]), b = atoi(w[5]); char *mem = NULL; size_t memlen = 0; FILE *f;
+		SM2_Z256_AFFINE_POINT A; size_t i;
+		f = open_memstream(&mem, &memlen);
+		sm2_z256_print(f, a, b, "n", P->X);
+		sm2_z256_point_print(f, a, b, "P", P);
+		memcpy(A.x, P->X, 32); memcpy(A.y, P->Y, 32);
+		sm2_z256_point_affine_print(f, a, b, "A", &A);
+		fclose(f);
+		for (i = 0; i < memlen; i++) putchar(mem[i] == '\n' ? '|' : (mem[i] == ' ' ? '_' : mem[i]));
+		free(mem); free(P);
+	}
+	else if (IS("hexpt") && nw == 2) {    /* 128 hex digits: point_from_hex, point_equ_hex */
+		SM2_Z256_POINT *P = malloc(sizeof(*P)); char *hex = malloc(129); int r;
+		memset(P, 0xA5, sizeof(*P)); memcpy(hex, w[1], 128); hex[128] = 0;
+		r = sm2_z256_point_from_hex(P, hex);
+		if (r == 1) { printf("1 "); pp(P); printf(" %d", sm2_z256_point_equ_hex(P, hex)); } else printf("%d", r);
+		free(P); free(hex);
 	}
 	else printf("ERR unknown-op");
 }
